@@ -642,7 +642,17 @@ func isImmutableArgType(t types.Type) bool {
 // Truth evaluates a boolean SSA value in st.
 func (x *Explorer) Truth(v ssa.Value, st *State) (val, known bool) {
 	k := x.key(v, st)
-	return truthOfKey(k, st)
+	if val, known = truthOfKey(k, st); known {
+		return
+	}
+	// the register itself: its value cannot change although the key it was
+	// aliased to (a memory-dependent expression) may have been invalidated
+	if _, isInstr := v.(ssa.Instruction); isInstr {
+		if f, ok := st.fact("r:" + v.Name()); ok {
+			return f, true
+		}
+	}
+	return false, false
 }
 
 func truthOfKey(k string, st *State) (val, known bool) {
@@ -902,6 +912,7 @@ func (x *Explorer) Run() []Hit {
 							}
 							st.Facts[k] = want != neg
 						}
+						st.Facts["r:"+v.Name()] = want
 					}
 				}
 			}
@@ -1176,7 +1187,7 @@ func (x *Explorer) invalidateOnCall(c ssa.CallInstruction, st *State) {
 
 func (x *Explorer) branch(i *ssa.If, b *ssa.BasicBlock, st *State, trace []int, work *[]workItem) {
 	k := x.key(i.Cond, st)
-	val, known := truthOfKey(k, st)
+	val, known := x.Truth(i.Cond, st)
 	neg := false
 	base := k
 	for strings.HasPrefix(base, "!") {
@@ -1188,6 +1199,9 @@ func (x *Explorer) branch(i *ssa.If, b *ssa.BasicBlock, st *State, trace []int, 
 		if record {
 			ns = st.clone()
 			ns.Facts[base] = truth != neg
+			if _, isInstr := i.Cond.(ssa.Instruction); isInstr && strings.Contains(base, "*") {
+				ns.Facts["r:"+i.Cond.Name()] = truth
+			}
 			// (call#k == nil) learnt true for the error result of a module
 			// function whose other result is non-nil on success
 			if truth != neg && strings.HasSuffix(base, "==nil)") && strings.HasPrefix(base, "(t") {
@@ -1227,6 +1241,11 @@ func (x *Explorer) shouldTrack(base string, cond ssa.Value) bool {
 	// a plain boolean register (phi, extract, call result) tested twice
 	// must answer the same both times
 	if len(regsOf(base)) == 1 && !strings.ContainsAny(base, "*^(") {
+		return true
+	}
+	// comparisons over registers, parameters, constants and stable loads
+	// (no '*' = no memory that a call or store could change in between)
+	if !strings.Contains(base, "*") && len(base) <= 120 {
 		return true
 	}
 	// pure observers (fi.IsDir(), fi.Mode() tests ...) answer the same on
